@@ -150,3 +150,11 @@ package store
 //@   requires timestamp != nil
 //@   ensures err == nil && m != nil ==> m.Timestamp != nil && timenano(m.Timestamp) < timenano(timestamp)
 //@   modifies nothing
+
+// the spork entries stored in the spork contract, as the canonical slice GetAllDefinedSporks hands out
+//@ model Momentum sporkCount int
+//@ model Momentum sporksArr int
+//@ model Momentum sporksOff int
+//@ func Momentum.GetAllDefinedSporks(self) -> (sporks, err)
+//@   ensures err == nil ==> sporks.arr == self.sporksArr && sporks.off == self.sporksOff && len(sporks) == self.sporkCount && forall k int :: 0 <= k && k < len(sporks) ==> sporks[k] != nil
+//@   modifies nothing
